@@ -95,20 +95,18 @@ theorem deliver_msg_is_datagram (c : Client) (d : Bytes) (x : COut) (hx : x ∈ 
         intro c tid e h id raw hm
         unfold Client.callback at hm
         split at hm
-        · simp at hm
+        · split at hm <;> simp at hm
         · split at hm
-          · split at hm <;> simp at hm
-          · split at hm
-            · simp only [List.mem_singleton, COut.call.injEq] at hm; exact hm.2.2.symm
-            · unfold Client.retransmit at hm
-              simp only at hm
-              split at hm
-              · simp only [List.mem_singleton, COut.call.injEq] at hm
+          · simp only [List.mem_singleton, COut.call.injEq] at hm; exact hm.2.2.symm
+          · unfold Client.retransmit at hm
+            simp only at hm
+            split at hm
+            · simp only [List.mem_singleton, COut.call.injEq] at hm
+              split at hm <;> simp at hm
+            · split at hm
+              · simp at hm
+              · simp only [List.mem_cons, reduceCtorEq, COut.call.injEq, List.not_mem_nil, or_false, false_or] at hm
                 split at hm <;> simp at hm
-              · split at hm
-                · simp at hm
-                · simp only [List.mem_cons, reduceCtorEq, COut.call.injEq, List.not_mem_nil, or_false, false_or] at hm
-                  split at hm <;> simp at hm
       have := this _ _ _ _ _ _ hx
       simpa using this.symm
   · simp at hx
@@ -221,36 +219,102 @@ theorem start_spec (S) (c : Client) (hi : TInv c) (hf : FromStarts S c) (id : TI
             · intro _ h'; exact hpend h'
             · intro h'; show pend h' ((c2.connWrite raw).1.erase id) ≤ _; rw [hpend]; omega
 
-theorem callback_closed (c : Client) (id : TID) (e : CEv) (h : c.closed = true) : c.callback id e = (c, []) := by
-  unfold Client.callback; simp [h]
+/-- a closed client never retransmits: a callback either finds nothing, or completes the transaction it finds -/
+theorem callback_closed (c : Client) (id : TID) (e : CEv) (h : c.closed = true) :
+    c.callback id e = match c.lookup id with
+      | none => (c, [])
+      | some tx => (c.erase id, [.call tx.h id e]) := by
+  unfold Client.callback
+  cases c.lookup id with
+  | none => simp [h]
+  | some tx => simp [h]
 
-theorem callbacks_closed (c : Client) (hc : c.closed = true) (evs : List (TID × CEv)) : c.callbacks evs = (c, []) := by
-  induction evs with
-  | nil => rfl
+/-- … so the callbacks of a closed client only invoke handlers (with the events given), keep it closed and leave its
+    agent alone -/
+theorem callbacks_closed (c : Client) (hc : c.closed = true) (evs : List (TID × CEv)) :
+    (c.callbacks evs).1.closed = true ∧ (c.callbacks evs).1.agent = c.agent ∧
+    (c.callbacks evs).1.closeConn = c.closeConn ∧ (c.callbacks evs).1.agentCloseErr = c.agentCloseErr ∧
+    (c.callbacks evs).1.connCloseErr = c.connCloseErr ∧
+    ∀ x ∈ (c.callbacks evs).2, ∃ h id e, (id, e) ∈ evs ∧ x = COut.call h id e := by
+  induction evs generalizing c with
+  | nil => exact ⟨hc, rfl, rfl, rfl, rfl, by simp [Client.callbacks]⟩
   | cons ev r ih =>
     obtain ⟨id, e⟩ := ev
-    simp only [Client.callbacks]; rw [callback_closed c id e hc]; simp only [ih, List.append_nil]
+    have hcb := callback_closed c id e hc
+    simp only [Client.callbacks]
+    cases hl : c.lookup id with
+    | none =>
+      rw [hl] at hcb; simp only at hcb
+      rw [hcb]
+      obtain ⟨i1, i2, i3, i4, i5, i6⟩ := ih c hc
+      refine ⟨i1, i2, i3, i4, i5, ?_⟩
+      intro x hx
+      simp only [List.nil_append] at hx
+      obtain ⟨h, id', e', hm, rfl⟩ := i6 x hx
+      exact ⟨h, id', e', List.mem_cons_of_mem _ hm, rfl⟩
+    | some tx =>
+      rw [hl] at hcb; simp only at hcb
+      rw [hcb]
+      obtain ⟨i1, i2, i3, i4, i5, i6⟩ := ih (c.erase id) hc
+      refine ⟨i1, i2, i3, i4, i5, ?_⟩
+      intro x hx
+      simp only [List.cons_append, List.nil_append, List.mem_cons] at hx
+      rcases hx with rfl | hx
+      · exact ⟨tx.h, id, e, List.mem_cons_self, rfl⟩
+      · obtain ⟨h, id', e', hm, rfl⟩ := i6 x hx
+        exact ⟨h, id', e', List.mem_cons_of_mem _ hm, rfl⟩
 
-/-- `Close`: no handler is invoked and nothing is written; the table is left alone; the connection is closed once iff
-    the client owns it; a second `Close` reports ErrClientClosed and does nothing -/
+/-- `Close`: the client and its agent are closed; the transactions still registered with the agent are completed
+    with ErrAgentClosed (the only handler invocations; nothing is written); the connection is closed once iff the
+    client owns it; a second `Close` reports ErrClientClosed and does nothing -/
 theorem close_spec (c : Client) :
     (c.closed = true → c.close = (c, some .clientClosed, [])) ∧
     (c.closed = false →
-      (c.close).1.closed = true ∧ (c.close).1.t = c.t ∧ (c.close).1.agent.closed = true ∧
-      (c.close).2.2 = (if c.closeConn then [COut.connClose] else []) ∧
-      ((c.close).2.1 = none ∨ (c.close).2.1 = some .closeErr)) := by
+      (c.close).1.closed = true ∧ (c.close).1.agent.closed = true ∧
+      ((c.close).2.1 = none ∨ (c.close).2.1 = some .closeErr) ∧
+      (∀ x ∈ (c.close).2.2, (∃ h id, x = COut.call h id .agentClosed) ∨ (x = COut.connClose ∧ c.closeConn = true)) ∧
+      ((c.close).2.2.filter (fun x => x == COut.connClose)).length = (if c.closeConn then 1 else 0)) := by
   constructor
   · intro h; unfold Client.close; simp [h]
   · intro h
     unfold Client.close
     simp only [h, Bool.false_eq_true, if_false]
-    have hcb := callbacks_closed { c with closed := true, agent := (c.agent.close).1 } rfl
+    obtain ⟨k1, k2, k3, k4, k5, k6⟩ := callbacks_closed { c with closed := true, agent := (c.agent.close).1 } rfl
       (((c.agent.close).2.2).map (fun e => (e.id, CEv.agentClosed)))
-    simp only [hcb]
-    refine ⟨trivial, trivial, ?_, ?_, ?_⟩
-    · unfold Agent.close; split <;> simp_all
+    have hag : (c.agent.close).1.closed = true := by unfold Agent.close; split <;> simp_all
+    have hcalls : ∀ x ∈ (({ c with closed := true, agent := (c.agent.close).1 } : Client).callbacks
+        (((c.agent.close).2.2).map (fun e => (e.id, CEv.agentClosed)))).2, ∃ h id, x = COut.call h id .agentClosed := by
+      intro x hx
+      obtain ⟨h', id', e', hm, rfl⟩ := k6 x hx
+      simp only [List.mem_map] at hm
+      obtain ⟨ev, _, hev⟩ := hm
+      simp only [Prod.mk.injEq] at hev
+      exact ⟨h', id', by rw [← hev.2]⟩
+    have hnocc : ((({ c with closed := true, agent := (c.agent.close).1 } : Client).callbacks
+        (((c.agent.close).2.2).map (fun e => (e.id, CEv.agentClosed)))).2.filter (fun x => x == COut.connClose)).length = 0 := by
+      rw [List.length_eq_zero_iff, List.filter_eq_nil_iff]
+      intro x hx
+      obtain ⟨h', id', rfl⟩ := hcalls x hx
+      simp
+    simp only at k1 k2 k3 k4 k5
+    generalize hr : (({ c with closed := true, agent := (c.agent.close).1 } : Client).callbacks
+        (((c.agent.close).2.2).map (fun e => (e.id, CEv.agentClosed)))) = r at *
+    refine ⟨k1, by rw [k2]; exact hag, ?_, ?_, ?_⟩
     · split <;> simp
-    · split <;> simp
+    · intro x hx
+      rw [k3] at hx
+      by_cases hcc : c.closeConn = true
+      · rw [if_pos hcc] at hx
+        simp only [List.mem_append, List.mem_singleton] at hx
+        rcases hx with hx | rfl
+        · exact Or.inl (hcalls x hx)
+        · exact Or.inr ⟨rfl, hcc⟩
+      · rw [if_neg hcc] at hx
+        exact Or.inl (hcalls x hx)
+    · rw [k3]
+      by_cases hcc : c.closeConn = true
+      · rw [if_pos hcc, if_pos hcc, List.filter_append, List.length_append, hnocc]; simp
+      · rw [if_neg hcc, if_neg hcc, hnocc]
 
 def startsOf : List COp → List (Nat × TID × Bytes)
   | [] => []
@@ -324,17 +388,43 @@ theorem step_spec (S) (c : Client) (hi : TInv c) (hf : FromStarts S c) (op : COp
     exact ⟨tinv_congr c _ rfl hi, fun p hp => hf p hp, by simp [Client.step, Client.setRTO], by simp [Client.step, Client.setRTO],
       fun h => by simp [Client.step, calls, startsOf, pend, Client.setRTO]⟩
   | close =>
-    obtain ⟨k1, k2⟩ := close_spec c
     by_cases hc : c.closed = true
-    · have := k1 hc
+    · have := (close_spec c).1 hc
       simp only [Client.step, this]
       exact ⟨hi, fun p hp => hf p hp, by simp, by simp, fun h => by simp [calls, startsOf]⟩
     · have hcf : c.closed = false := by simpa using hc
-      obtain ⟨b1, b2, b3, b4, b5⟩ := k2 hcf
+      -- Close runs the closed-event callbacks on the closed client, then (maybe) closes the connection
+      have cs := callbacks_spec S (((c.agent.close).2.2).map (fun e => (e.id, CEv.agentClosed)))
+        { c with closed := true, agent := (c.agent.close).1 } (tinv_congr c _ rfl hi) (fun p hp => hf p hp)
+      have hp : ∀ h, pend h ({ c with closed := true, agent := (c.agent.close).1 } : Client) = pend h c := fun _ => rfl
       simp only [Client.step]
-      refine ⟨tinv_congr c _ b2 hi, fun p hp => hf p (by rw [← b2]; exact hp), ?_, ?_, ?_⟩
-      · intro h id e hm; rw [b4] at hm; split at hm <;> simp at hm
-      · intro raw h hm; rw [b4] at hm; split at hm <;> simp at hm
-      · intro h; rw [b4, pend_congr c _ b2]; simp only [startsOf]; split <;> simp [calls]
+      unfold Client.close
+      simp only [hcf, Bool.false_eq_true, if_false]
+      generalize hr : (({ c with closed := true, agent := (c.agent.close).1 } : Client).callbacks
+        (((c.agent.close).2.2).map (fun e => (e.id, CEv.agentClosed)))) = r at *
+      refine ⟨cs.inv, cs.from_, ?_, ?_, ?_⟩
+      · intro h id e hm
+        have : COut.call h id e ∈ r.2 := by
+          split at hm
+          · simp only [List.mem_append, List.mem_singleton, reduceCtorEq, or_false] at hm; exact hm
+          · exact hm
+        obtain ⟨raw, hr⟩ := cs.outs.call h id e this
+        exact ⟨raw, by simp only [startsOf, List.nil_append]; exact hr⟩
+      · intro raw h hm
+        have : COut.write raw (some h) ∈ r.2 := by
+          split at hm
+          · simp only [List.mem_append, List.mem_singleton, reduceCtorEq, or_false] at hm; exact hm
+          · exact hm
+        obtain ⟨id, hr⟩ := cs.outs.write raw h this
+        exact ⟨id, by simp only [startsOf, List.nil_append]; exact hr⟩
+      · intro h
+        have e1 := cs.count h
+        have e2 := hp h
+        simp only [startsOf, List.filter_nil, List.length_nil, Nat.add_zero]
+        split
+        · rw [calls_append]
+          have : calls h [COut.connClose] = 0 := by simp [calls]
+          rw [this]; omega
+        · omega
 
 end Stun.ClientProofs
